@@ -58,6 +58,29 @@ func (k Keeper) Repay(ctx sdk.Context, mtp *types.MTP, pool *types.Pool, ammPool
 
 	// This is for accounting purposes, mtp.Custody gets reduced by borrowInterestPaymentCustody and funding fee. so msg.Amount is greater than mtp.Custody here. So if it's negative it should be closed
 	if mtp.Custody.IsZero() || mtp.Custody.IsNegative() {
+		// The position is destroyed as a whole. After a partial close (closingRatio < 1) of a position
+		// whose custody was used up by interest and funding, part of its liabilities, collateral and
+		// take profit amounts is still counted in the pool: take what is left out of the pool as well.
+		err = pool.UpdateLiabilities(mtp.LiabilitiesAsset, mtp.Liabilities, false, mtp.Position)
+		if err != nil {
+			return err
+		}
+		err = pool.UpdateCollateral(mtp.CollateralAsset, mtp.Collateral, false, mtp.Position)
+		if err != nil {
+			return err
+		}
+		err = pool.UpdateCustody(mtp.CustodyAsset, mtp.Custody, false, mtp.Position)
+		if err != nil {
+			return err
+		}
+		err = pool.UpdateTakeProfitLiabilities(mtp.LiabilitiesAsset, mtp.TakeProfitLiabilities, false, mtp.Position)
+		if err != nil {
+			return err
+		}
+		err = pool.UpdateTakeProfitCustody(mtp.CustodyAsset, mtp.TakeProfitCustody, false, mtp.Position)
+		if err != nil {
+			return err
+		}
 		err = k.DestroyMTP(ctx, mtp.GetAccountAddress(), mtp.Id)
 		if err != nil {
 			return err
